@@ -404,7 +404,7 @@ pub enum OneShot {
 }
 
 fn small_count() -> BoxedStrategy<usize> {
-    prop_oneof![6 => 1usize..=12, 1 => count_pool()].boxed()
+    prop_oneof![14 => 1usize..=12, 1 => count_pool()].boxed()
 }
 
 pub fn oneshot_strategy(_t: Tier) -> BoxedStrategy<OneShot> {
